@@ -39,6 +39,16 @@ CLAIMED = {
             'transaction succeeds. Exhaustive over the enumerated placements only.',
             'Trusted: CPython, harness codecs, shared virtual clock; C05.c asserted only under protocol-sane timers (T_seg + 2*D_max < T_out, retries >= 1).',
             'DESIGN.md section 3 (C05)'),
+    'C06': ('exploration',
+            'deterministic simulation: seeded random tree internetworks with per-frame delays (reordering), population-model oracle, independent NPDU wire monitor; cyclic layouts for termination',
+            'Seeded random tree internetworks (2-8 networks, real NSAP/NSE routers with 2-4 ports, some hosting a receive-only application, 1-3 full station stacks per network, stations with '
+            'and without network-number knowledge, routers announcing or silent at start) carry every (source, kind, destination) packet combination on cold then '
+            'warm caches, bursts within one instant and raw routed frames with hop counts 0..3/255, all under seeded per-frame delays so discovery and data overtake each other. '
+            'Oracles: recipients equal the population model, each exactly once; the source shown names the originator and a reply to it reaches the originator once; '
+            'each router emission matches a reception on another port with hop count minus one and the right SADR, nothing forwarded at hop count 0; small cyclic layouts with '
+            'pre-loaded caches reach quiescence within 256 x routers frames; a lossy mode checks never-twice/never-wrong-station.',
+            'Trusted: population model, harness NPDU decoder; exactly-once on loss-free fabric; cold-cache discovery on cyclic layouts out of scope (stated in DESIGN); router-hosted applications are receive-only.',
+            'DESIGN.md section 3 (C06), 12.4'),
     'C10': ('fault_enumeration',
             'deterministic simulation with corruption faults: complete single-octet substitution / truncation / insertion enumeration per service frame + seeded same-batch interleavings; reply-count oracle with independent classifier',
             'A complete BACnet/IP device (real UDPMultiplexer/AnnexJ/BIPSimple/NSAP/SMAP/ASAP/application with read/write/RPM/COV/DCC/Who-Is services) runs on an '
